@@ -416,8 +416,8 @@ theorem noDupNames_loop (reg : Registry) (opts : Opts) (plug : Plug) (fuel : Nat
   intro t ht hne
   exact noDupNames_of_everyNode wfq wfq_keysUnique _ ((h1.trees t ht).1.2 hne)
 
-/-- The same at the end of the whole augment part of `Process` (loop, FixChoice, leftover pass,
-FixChoice): the forest the deviations are applied to. -/
+/-- The same at the end of the whole augment part of `Process` (loop, FixChoice, retry rounds,
+reporting sweep, FixChoice): the forest the deviations are applied to. -/
 theorem noDupNames_preDev (reg : Registry) (opts : Opts) (plug : Plug) :
     ∀ t ∈ (preDev reg opts plug).forest.trees, NoErrors t.2 → NoDupNames t.2 := by
   have hq := localOK_wfqB (envOf reg opts plug) false (fun h => absurd h (by simp))
